@@ -172,7 +172,8 @@ func (m *txObjectMap) promote(txObj *TxObject) bool {
 	verifTrace(m, "pre.promote", txObj)
 	m.lock.Lock()
 	defer m.lock.Unlock()
-	if _, ok := m.mapByHash[txObj.Hash()]; !ok {
+	// the pool must hold this very object: a tx removed and re-added meanwhile is a different object
+	if cur, ok := m.mapByHash[txObj.Hash()]; !ok || cur != txObj {
 		verifTrace(m, "promote.miss", txObj)
 		return false
 	}
